@@ -29,6 +29,15 @@ struct seen
 
 template <typename T> static std::vector<seen<T>>& LOG() { static std::vector<seen<T>> l; return l; }
 
+// never-stopping MPI callback that marks the size of the rank's log after every iteration
+static std::vector<sz> g_bounds;
+template <typename T>
+struct mark_mpi
+{
+    template <typename C>
+    bool operator()(MPI_Comm, C const&) const { g_bounds.push_back(LOG<T>().size()); return true; }
+};
+
 template <typename T>
 struct vfn
 {
@@ -127,23 +136,23 @@ static void vegas_case(report& r, std::string const& id, sz iters, int gridkind,
         int const world = mode - 100;
         vf::mpi_env env(world);
         std::vector<std::vector<seen<T>>> per_rank(world);
+        std::vector<std::vector<sz>> bounds(world);
         std::vector<std::string> texts(world);
         auto out = env.run([&](int rank) {
-            LOG<T>().clear();
-            auto c = hep::mpi_vegas(MPI_COMM_WORLD, integrand, calls, fresh(), vf::never_stop_mpi());
-            per_rank[rank] = LOG<T>();
+            LOG<T>().clear(); g_bounds.clear();
+            auto c = hep::mpi_vegas(MPI_COMM_WORLD, integrand, calls, fresh(), mark_mpi<T>());
+            per_rank[rank] = LOG<T>(); bounds[rank] = g_bounds;
             std::ostringstream o; c.serialize(o); texts[rank] = o.str();
             if (rank == 0) chk = c;
         });
         if (!out.ok) { r.violate("mpi-run-failed", id, id + ": " + out.what); return; }
         for (int k = 1; k < world; ++k) if (texts[k] != texts[0]) { r.violate("ranks-return-different-checkpoints", id, id); return; }
-        // concatenate the per-rank logs iteration by iteration in rank order
-        std::vector<sz> cursor(world, 0);
+        // concatenate the per-rank logs iteration by iteration in rank order (boundaries marked by the callback)
         for (sz it = 0; it != calls.size(); ++it)
             for (int k = 0; k != world; ++k)
             {
-                sz const n = calls[it] / world + (sz(k) < calls[it] % world ? 1 : 0);
-                for (sz i = 0; i != n && cursor[k] < per_rank[k].size(); ++i) log.push_back(per_rank[k][cursor[k]++]);
+                if (bounds[k].size() != calls.size()) { r.violate("callback-invocations", id, id + ": rank " + std::to_string(k) + " invoked the callback " + std::to_string(bounds[k].size()) + " times"); return; }
+                for (sz i = it ? bounds[k][it - 1] : 0; i != bounds[k][it]; ++i) log.push_back(per_rank[k][i]);
             }
     }
     auto const& res = chk.results();
@@ -223,22 +232,22 @@ static void mc_case(report& r, std::string const& id, sz iters, int wkind, T bet
         int const world = mode - 100;
         vf::mpi_env env(world);
         std::vector<std::vector<seen<T>>> per_rank(world);
+        std::vector<std::vector<sz>> bounds(world);
         std::vector<std::string> texts(world);
         auto out = env.run([&](int rank) {
-            LOG<T>().clear();
-            auto c = hep::mpi_multi_channel(MPI_COMM_WORLD, integrand, calls, fresh(), vf::never_stop_mpi());
-            per_rank[rank] = LOG<T>();
+            LOG<T>().clear(); g_bounds.clear();
+            auto c = hep::mpi_multi_channel(MPI_COMM_WORLD, integrand, calls, fresh(), mark_mpi<T>());
+            per_rank[rank] = LOG<T>(); bounds[rank] = g_bounds;
             std::ostringstream o; c.serialize(o); texts[rank] = o.str();
             if (rank == 0) chk = c;
         });
         if (!out.ok) { r.violate("mpi-run-failed", id, id + ": " + out.what); return; }
         for (int k = 1; k < world; ++k) if (texts[k] != texts[0]) { r.violate("ranks-return-different-checkpoints", id, id); return; }
-        std::vector<sz> cursor(world, 0);
         for (sz it = 0; it != calls.size(); ++it)
             for (int k = 0; k != world; ++k)
             {
-                sz const n = calls[it] / world + (sz(k) < calls[it] % world ? 1 : 0);
-                for (sz i = 0; i != n && cursor[k] < per_rank[k].size(); ++i) log.push_back(per_rank[k][cursor[k]++]);
+                if (bounds[k].size() != calls.size()) { r.violate("callback-invocations", id, id + ": rank " + std::to_string(k) + " invoked the callback " + std::to_string(bounds[k].size()) + " times"); return; }
+                for (sz i = it ? bounds[k][it - 1] : 0; i != bounds[k][it]; ++i) log.push_back(per_rank[k][i]);
             }
     }
     auto const& res = chk.results();
